@@ -399,4 +399,94 @@ theorem processRoot_inv (P : Nat → Nat → Nat → Prop) (observe : Nat → Na
       simp only at h1 h2
       rw [← h1]; exact h2
 
+/-- election states reachable from `reset vals ftd` by successful `processRoot` calls with arbitrary
+    (per call) forkless-cause and roots oracles, the latter sound for the slot predicate `P` -/
+inductive Reach (P : Nat → Nat → Nat → Prop) (vals : Vals) (ftd : Nat) : Election → Prop
+  | init : Reach P vals ftd (reset vals ftd)
+  | step {el el' : Election} {observe : Nat → Nat → Bool} {frameRoots : Nat → List Root} {nr : Root}
+      {res : Option (Nat × Nat)} : Reach P vals ftd el → SoundRoots P frameRoots → nr.frame < 4294967296 →
+      processRoot observe frameRoots el nr = .ok (el', res) → Reach P vals ftd el'
+
+theorem reach_inv (P : Nat → Nat → Nat → Prop) (vals : Vals) (ftd : Nat) (hids : (vals.sorted.map (·.1)).Nodup)
+    (hf : ftd < 4294967296) (el : Election) (hr : Reach P vals ftd el) :
+    Inv P el ∧ el.frameToDecide = ftd ∧ el.vals = vals := by
+  induction hr with
+  | init => exact ⟨inv_reset P vals ftd, rfl, rfl⟩
+  | step _ hs hn hp ih =>
+    obtain ⟨h1, h2, h3⟩ := ih
+    obtain ⟨g1, g2, g3⟩ := processRoot_inv P _ _ _ _ _ _ h1 (by rw [h3]; exact hids) hs (by rw [h2]; exact hf) hn hp
+    exact ⟨g1, g2.trans h2, g3.trans h3⟩
+
+theorem chooseAtroposFrom_some (el : Election) (l : List (Nat × Nat)) (f a : Nat)
+    (h : chooseAtroposFrom el l = .ok (some (f, a))) :
+    f = el.frameToDecide ∧ ∃ v w vote, (v, w) ∈ l ∧ el.decidedRoots.lookup v = some vote ∧
+      vote.yes = true ∧ vote.observedRoot = a := by
+  induction l with
+  | nil => simp [chooseAtroposFrom] at h
+  | cons x xs ih =>
+    obtain ⟨vid, w⟩ := x
+    simp only [chooseAtroposFrom] at h
+    cases hl : el.decidedRoots.lookup vid with
+    | none => rw [hl] at h; cases h
+    | some vote =>
+      rw [hl] at h
+      simp only at h
+      by_cases hy : vote.yes = true
+      · rw [if_pos hy] at h
+        simp only [Except.ok.injEq, Option.some.injEq, Prod.mk.injEq] at h
+        exact ⟨h.1.symm, vid, w, vote, List.mem_cons_self, hl, hy, h.2⟩
+      · rw [if_neg hy] at h
+        obtain ⟨h1, v, w', vt, hm, rest⟩ := ih h
+        exact ⟨h1, v, w', vt, List.mem_cons_of_mem _ hm, rest⟩
+
+/-- whatever `processRoot` returns as Atropos in a reachable state is named by the decided yes-vote of
+    a validator of the set, for the frame to decide, and satisfies the slot predicate -/
+theorem reach_atropos (P : Nat → Nat → Nat → Prop) (vals : Vals) (ftd : Nat) (hids : (vals.sorted.map (·.1)).Nodup)
+    (hf : ftd < 4294967296) (el el' : Election) (hr : Reach P vals ftd el)
+    (observe : Nat → Nat → Bool) (frameRoots : Nat → List Root) (nr : Root)
+    (hs : SoundRoots P frameRoots) (hn : nr.frame < 4294967296) (f a : Nat)
+    (h : processRoot observe frameRoots el nr = .ok (el', some (f, a))) :
+    f = ftd ∧ ∃ v w, (v, w) ∈ vals.sorted ∧ P ftd v a := by
+  have hr' : Reach P vals ftd el' := Reach.step hr hs hn h
+  obtain ⟨i1, i2, i3⟩ := reach_inv P vals ftd hids hf el hr
+  obtain ⟨j1, j2, j3⟩ := reach_inv P vals ftd hids hf el' hr'
+  have fin : ∀ e : Election, Inv P e → e.frameToDecide = ftd → e.vals = vals →
+      chooseAtropos e = .ok (some (f, a)) → f = ftd ∧ ∃ v w, (v, w) ∈ vals.sorted ∧ P ftd v a := by
+    intro e k1 k2 k3 hc
+    obtain ⟨g1, v, w, vote, hm, hl, hy, ha⟩ := chooseAtroposFrom_some e _ f a hc
+    refine ⟨g1.trans k2, v, w, by rw [← k3]; exact hm, ?_⟩
+    have := (k1.decided v vote (lookup_mem _ _ _ hl)).2.1 hy
+    rw [k2, ha] at this; exact this
+  rcases processRoot_cases _ _ _ _ _ _ h with ⟨rfl, r, hc, hres⟩ | ⟨_, _, hres, _⟩ | ⟨_, _, _, _, hc⟩
+  · cases hres; exact fin _ i1 i2 i3 hc
+  · cases hres
+  · exact fin _ j1 j2 j3 hc
+
+/-- first-round votes never write a decision -/
+theorem voteLoop_first_decided (el : Election) (nr : Root) (round : Nat) (om : List (Nat × Root)) (obs : List Root)
+    (hf : Gen.Election.firstRound round = true) (subjects : List Nat) (e e' : Election)
+    (h : voteLoop el nr round om obs subjects e = .ok e') : e'.decidedRoots = e.decidedRoots := by
+  induction subjects generalizing e with
+  | nil => simp only [voteLoop] at h; cases h; rfl
+  | cons s rest ih =>
+    rw [voteLoop_cons_first _ _ _ _ _ _ _ _ hf] at h
+    rw [ih _ h, pushVote_decided]
+    have : (firstVote om s).decided = false := by unfold firstVote; cases om.lookup s <;> rfl
+    rw [this]; rfl
+
+/-- decisions are only written by roots of rounds ≥ 2: a root of frame ≤ `frameToDecide + 1` leaves
+    `decidedRoots` as it was -/
+theorem processRoot_no_early_decision (observe : Nat → Nat → Bool) (frameRoots : Nat → List Root)
+    (el : Election) (nr : Root) (el' : Election) (res : Option (Nat × Nat))
+    (hf : el.frameToDecide + 1 < 4294967296) (hnr : nr.frame ≤ el.frameToDecide + 1)
+    (h : processRoot observe frameRoots el nr = .ok (el', res)) : el'.decidedRoots = el.decidedRoots := by
+  rcases processRoot_cases _ _ _ _ _ _ h with ⟨rfl, _⟩ | ⟨rfl, _⟩ | ⟨_, hs, _, hvl, _⟩
+  · rfl
+  · rfl
+  · obtain ⟨h1, h2, _, h4, _⟩ := round_facts nr.frame el.frameToDecide (by omega) (by omega) hs
+    refine voteLoop_first_decided _ _ _ _ _ ?_ _ _ _ hvl
+    cases hfr : Gen.Election.firstRound (Gen.Election.round nr.frame el.frameToDecide) with
+    | true => rfl
+    | false => have := h4 hfr; omega
+
 end ElectionProofs
